@@ -78,7 +78,10 @@ UTypes ==
     \* realised by reflection as a Go struct with exported FIELDS (not methods), met both as a value and through a pointer
     P |->
       [ kind |-> "OBJECT", ifaces |-> <<"Named">>, members |-> <<>>,
-        fields |-> [ name |-> FD(S, <<>>), peer |-> FD(Named("Named"), <<>>), say |-> FD(S, <<>>), n |-> FD(I, <<>>) ] ],
+        \* (stamp: promoted from a struct embedded by pointer, rank: from one embedded by value, code: a method with a
+        \* pointer receiver)
+        fields |-> [ name |-> FD(S, <<>>), peer |-> FD(Named("Named"), <<>>), say |-> FD(S, <<>>), n |-> FD(I, <<>>),
+                     stamp |-> FD(S, <<>>), rank |-> FD(I, <<>>), code |-> FD(S, <<>>) ] ],
     Any |->
       [ kind |-> "UNION", ifaces |-> <<>>, members |-> <<"A", "B">>, fields |-> [x \in {} |-> 0] ],
     Solo |->       \* a union that holds only one of the implementors of Named
@@ -107,7 +110,7 @@ UData ==
              kids |-> ListV(<<>>), boom |-> ErrV("boom fails"), many |-> V("errs", 3), half |-> V("errval", "part"), nest |-> V("errsn", 1), say |-> V("echo", 0),
              wrong |-> StrV("n/a"), flags |-> ListV(<<>>), tag |-> V("echo", 0) ],
     b1 |-> [ name |-> StrV("b1"), flag |-> BoolV(TRUE), peer |-> NodeV("a1"), say |-> V("echo", 0) ],
-    p1 |-> [ name |-> StrV("p1"), peer |-> NullV, say |-> StrV("hi"), n |-> IntV(5) ] ]
+    p1 |-> [ name |-> StrV("p1"), peer |-> NullV, say |-> StrV("hi"), n |-> IntV(5), stamp |-> StrV("st"), rank |-> IntV(3), code |-> StrV("c9") ] ]
 
 UExec == [ types |-> UTypes, nodeType |-> UNodeType, data |-> UData,
            roots |-> [ query |-> "q", mutation |-> "m" ], nth |-> {},
